@@ -78,11 +78,12 @@ func isKnownTx(err error) bool {
 type c13E2EOpt struct {
 	N            int    `json:"n"`
 	Budget       int    `json:"block_budget"`
-	StartDelay   []int  `json:"start_delay_blocks"`        // per member
-	Stage        string `json:"prepared_state,omitempty"`  // see c13Prepare; "": fresh chain
-	Sweep        bool   `json:"threshold_sweep,omitempty"` // after the run: re-runs with balances put on the thresholds of the funds stage
-	CancelMember int    `json:"cancelled_member"`          // -1: nobody
-	CancelAt     int    `json:"cancelled_at_block"`        // blocks after the start
+	StartDelay   []int  `json:"start_delay_blocks"`          // per member
+	Stage        string `json:"prepared_state,omitempty"`    // see c13Prepare; "": fresh chain
+	BlockMs      int    `json:"block_interval_ms,omitempty"` // 0: the default
+	Sweep        bool   `json:"threshold_sweep,omitempty"`   // after the run: re-runs with balances put on the thresholds of the funds stage
+	CancelMember int    `json:"cancelled_member"`            // -1: nobody
+	CancelAt     int    `json:"cancelled_at_block"`          // blocks after the start
 	RestartAfter int    `json:"restarted_after_blocks"`
 }
 
@@ -105,7 +106,17 @@ type c13E2E struct {
 	RerunValidator string         `json:"rerun_validator_account_gas_before"`
 	RerunLeader    string         `json:"rerun_leader_gas_before"`
 	Sweeps         []c13SweepRes  `json:"threshold_reruns,omitempty"`
+	// Notary deposits of the members whose Deploy is running, sampled at every block (first run)
+	MinDeposit map[int]string `json:"lowest_notary_deposit_seen_after_first_deposit,omitempty"`
+	LowStreak  map[int]int    `json:"longest_run_of_blocks_with_deposit_below_a_request,omitempty"`
 }
+
+// A Notary request costs its sender the fallback transaction's fee when it expires (about 0.12 GAS);
+// a member with less than this on deposit can neither send nor co-sign requests.
+const c13RequestCost = 12_000_000
+
+// c13LowDepositBlocks: how long a running member may stay below that (the refill is one transaction).
+const c13LowDepositBlocks = 25
 
 // c13SweepRes is one re-run of Deploy by every member on the finished chain
 // after the harness put balances on (or next to) the thresholds of
@@ -289,6 +300,35 @@ func (x *c13Net) waitHeight(ctx context.Context, h uint32) {
 func (x *c13Net) runDeploy(fs []contracts.Contract, opt c13E2EOpt) (map[int]string, string, int) {
 	ctx, cancel := context.WithCancel(context.Background())
 	defer cancel()
+	x.minDeposit, x.lowStreak = map[int]int64{}, map[int]int{}
+	running := map[int]bool{} // Deploy of member m is between its start and its return
+	var runMu sync.Mutex
+	curStreak := map[int]int{}
+	sample := func() {
+		runMu.Lock()
+		defer runMu.Unlock()
+		for m, on := range running {
+			if !on {
+				curStreak[m] = 0
+				continue
+			}
+			d := x.bc.GetNotaryBalance(x.accs[m].ScriptHash()).Int64()
+			if _, seen := x.minDeposit[m]; !seen {
+				if d == 0 {
+					continue // no deposit made yet
+				}
+				x.minDeposit[m] = d
+			}
+			x.minDeposit[m] = min(x.minDeposit[m], d)
+			if d < c13RequestCost {
+				curStreak[m]++
+				x.lowStreak[m] = max(x.lowStreak[m], curStreak[m])
+			} else {
+				curStreak[m] = 0
+			}
+		}
+	}
+	setRunning := func(m int, on bool) { runMu.Lock(); running[m] = on; runMu.Unlock() }
 	ret := map[int]string{}
 	cancelled := ""
 	var mu sync.Mutex
@@ -304,6 +344,8 @@ func (x *c13Net) runDeploy(fs []contracts.Contract, opt c13E2EOpt) (map[int]stri
 		mu.Unlock()
 	}
 	safeDeploy := func(dctx context.Context, m int, prm *deploy.Prm) (err error) {
+		setRunning(m, true)
+		defer setRunning(m, false)
 		defer func() {
 			if r := recover(); r != nil {
 				err = fmt.Errorf("harness: %v", r)
@@ -352,8 +394,9 @@ loop:
 		select {
 		case <-back:
 			break loop
-		case <-time.After(c13BlockMs * time.Millisecond):
+		case <-time.After(time.Duration(x.blockMs) * time.Millisecond):
 			x.addBlock()
+			sample()
 		}
 	}
 	used := int(x.bc.BlockHeight() - start)
@@ -458,7 +501,7 @@ func (x *c13Net) prepare(fs []contracts.Contract, stage string) map[string]any {
 			select {
 			case <-back:
 				break loop
-			case <-time.After(c13BlockMs * time.Millisecond):
+			case <-time.After(time.Duration(x.blockMs) * time.Millisecond):
 				x.addBlock()
 			}
 		}
@@ -508,7 +551,7 @@ loop:
 		select {
 		case <-back:
 			break loop
-		case <-time.After(c13BlockMs * time.Millisecond):
+		case <-time.After(time.Duration(x.blockMs) * time.Millisecond):
 			x.addBlock()
 		}
 	}
@@ -521,7 +564,11 @@ loop:
 
 func c13RunE2E(t testing.TB, opt c13E2EOpt, salt int64) *c13E2E {
 	n := opt.N
-	x := newC13Net(t, n, salt)
+	ms := 10 // only the number of blocks matters to Deploy; the bootstrap-only runs keep c13BlockMs
+	if opt.BlockMs > 0 {
+		ms = opt.BlockMs
+	}
+	x := newC13NetMs(t, n, salt, ms)
 	x.withNotary()
 	// every member starts with 20 GAS only: after the run the leader (who paid for NNS, the system contracts,
 	// its Alphabet contract and the domains) is below the 150 GAS refill mark of the funds stage
@@ -540,6 +587,13 @@ func c13RunE2E(t testing.TB, opt c13E2EOpt, salt int64) *c13E2E {
 		x.mu.Unlock()
 	}
 	res.Returned, res.Cancelled, res.Blocks = x.runDeploy(fs, opt)
+	res.MinDeposit, res.LowStreak = map[int]string{}, map[int]int{}
+	for m, d := range x.minDeposit {
+		res.MinDeposit[m] = fixedn.Fixed8(d).String()
+	}
+	for m, k := range x.lowStreak {
+		res.LowStreak[m] = k
+	}
 	res.Notary = x.roleIsCommittee(noderoles.P2PNotary)
 	res.Alphabet = x.roleIsCommittee(noderoles.NeoFSAlphabet)
 	var nns util.Uint160
@@ -665,6 +719,26 @@ func c13EndToEnd(c *c13) (string, string) {
 		{c13E2EOpt{N: 4, Budget: 700, CancelMember: 0, CancelAt: 5 + r.Intn(40), RestartAfter: 1 + r.Intn(6), StartDelay: delays(4, 4)}, "the leader is stopped and restarted"},
 	}
 	scs[len(scs)-1].opt.Sweep = thorough
+	// a member joins after a LONG delay: the others wait at a step that needs it, their Notary requests expire
+	// (each expiry costs the deposit a fallback fee) and must keep being paid for; once the last member is up,
+	// every Deploy must return nil within 300 blocks. Fast blocks: only their number matters.
+	late := func(n, who, by int) sc {
+		d := make([]int, n)
+		d[who] = by
+		return sc{c13E2EOpt{N: n, Budget: by + 300, CancelMember: -1, StartDelay: d, BlockMs: 8},
+			fmt.Sprintf("member %d of %d joins %d blocks after the others", who, n, by)}
+	}
+	scs = append(scs, late(4, 3, 380))
+	if thorough {
+		for _, by := range []int{100, 250, 400} {
+			for _, who := range []int{0, 1, 3} {
+				scs = append(scs, late(4, who, by))
+			}
+		}
+		for n := 5; n <= 7; n++ {
+			scs = append(scs, late(n, n-1, 400), late(n, 0, 400), late(n, 1, 250))
+		}
+	}
 	if thorough {
 		for _, n := range []int{5, 6} {
 			scs = append(scs, sc{c13E2EOpt{N: n, Budget: 800, CancelMember: -1, Sweep: true}, fmt.Sprintf("%d members", n)})
@@ -713,6 +787,12 @@ func c13EndToEnd(c *c13) (string, string) {
 			for _, e := range res.Returned {
 				if e == "" {
 					nilCount++
+				}
+			}
+			for m, k := range res.LowStreak {
+				if k > c13LowDepositBlocks {
+					c.st.AddViolation(fmt.Sprintf("deploy.Deploy (n=%d, %s): the Notary deposit of member %d stayed below the cost of one request (0.12 GAS) for %d blocks while its Deploy was running (lowest seen %s GAS) — it can neither send nor co-sign Notary requests",
+						s.opt.N, s.note, m, k, res.MinDeposit[m]), res)
 				}
 			}
 			out := "converged"
